@@ -153,7 +153,7 @@ def validate_traces(scratch, files, timeout=1800, module="Z80Trace.tla", cfg="Z8
         if isinstance(res.get("cov"), list):
             res["cov"] = {}
         return dict(file=f, lines=nlines, consumed=res["consumed"], bad=res["bad"], cov=res["cov"],
-                    states=dist, transitions=g)
+                    kf=res.get("kf") or [], states=dist, transitions=g)
 
     with concurrent.futures.ThreadPoolExecutor(max_workers=NCPU) as ex:
         return list(ex.map(one, files))
